@@ -1908,6 +1908,7 @@ EbErrorType svt_svt_enc_init_parameter(
 
 EbErrorType init_svt_av1_encoder_handle(
     EbComponentType * hComponent);
+EbErrorType svt_av1_enc_component_de_init(EbComponentType  *svt_enc_component);
 /**********************************
 * GetHandle
 **********************************/
@@ -1932,6 +1933,8 @@ EB_API EbErrorType svt_av1_enc_init_handle(
         SVT_LOG("Error: Component Struct Malloc Failed\n");
         return EB_ErrorInsufficientResources;
     }
+    // the failure path below inspects the private handle: it must not be left uninitialised
+    (*p_handle)->p_component_private = NULL;
     // Init Component OS objects (threads, semaphores, etc.)
     // also links the various Component control functions
     EbErrorType return_error = init_svt_av1_encoder_handle(*p_handle);
@@ -1942,6 +1945,8 @@ EB_API EbErrorType svt_av1_enc_init_handle(
     }
     if (return_error != EB_ErrorNone) {
         svt_av1_enc_deinit(*p_handle);
+        // release the private handle if it was already created (e.g. config_ptr == NULL)
+        svt_av1_enc_component_de_init(*p_handle);
         free(*p_handle);
         *p_handle = NULL;
         return return_error;
